@@ -6,8 +6,11 @@ P: the placement table of loadSyntaxRule, the tag numbering and the set of root 
 K: valid DSL generated from abstract rule descriptions (pattern alternatives with the variables gogrep / regexp say they bind,
    Where atoms over a variable pool with kind / object / node-type / version arguments, At(), Report/Suggest templates);
    the Coq validation model (vm_compute) predicts accept / reject for each and is compared with Engine.Load.
-O: the property itself on three streams (arbitrary bytes and mutated fixture files; type-correct Go that is not DSL; the
-   generated DSL): no panic, no hang (5 s), every error names rules.go:<line>, no report with a nil node from an accepted rule.
+O: the property itself on four streams (arbitrary bytes and mutated fixture / generated files; a catalogue of type-correct Go that
+   is not DSL; the generated DSL; generated file structures: equal-named / blank / method rule groups, local helpers of every
+   signature and body shape, custom filter functions with native calls of many arguments): no panic, no fatal runtime error
+   (stack overflow: every Load runs in a child process with a capped stack, the death of the child is attributed to the
+   announced input), no hang (5 s), every error names rules.go:<line>, no report with a nil node from an accepted rule.
 """
 import json
 import os
@@ -22,14 +25,17 @@ def coq_str(s):
 
 def run(c):
     thorough = c.tier == "thorough"
-    c.rule = ("stream bytes: random bytes / mutated fixture rules files; stream notdsl: a fixed catalogue of type-correct non-DSL files; "
-              "stream dsl: generated rules; a dsl case is non-trivial when the rule has >= 2 alternatives, or refers to a variable in "
+    c.go2coq_sources = ["load.go"]
+    c.rule = ("stream bytes: random bytes / mutated fixture rules files / mutated generated files; stream notdsl: a fixed catalogue of "
+              "type-correct non-DSL files (incl. the shapes that used to crash Load); stream dsl: generated rules (Where atoms include "
+              "comparisons over all operand classes: constant, Line, Type.Size, Value.Int(), Text on either side); stream struct: generated "
+              "file structures; a dsl case is non-trivial when the rule has >= 2 alternatives, or refers to a variable in "
               "Where/At/templates, or carries a name argument; distinct by its source text; other streams: distinct by "
               "(stream, outcome class, first 40 bytes of the error)")
     c.trusted += [
         "go2coq placetable/validtables (switch tables, case-label lists, pinned statement lists, error-site scan)",
         "gogrep / regexp verdicts and bound variables of each pattern alternative are inputs of the model (computed by the harness with the same libraries)",
-        "harness/cmd/c06 (generators, 5 s timeout per Load, 'located' = the message contains rules.go:<line>)",
+        "harness/cmd/c06 (generators, 5 s timeout per Load, supervisor/child split with a 96 MB stack cap, 'located' = the message contains rules.go:<line>)",
     ]
     c.notes += ["panic-freedom of go/parser, go/types, gogrep, typematch, quasigo and of the bulk of irconv over arbitrary inputs is NOT proved; "
                 "the three input streams search for counterexamples only",
@@ -52,9 +58,9 @@ def run(c):
         return c.finish()
     state = {"round": 0}
 
-    def observe(seed, nbytes, ndsl):
+    def observe(seed, nbytes, ndsl, nstruct):
         state["round"] += 1
-        rc, out = c.run_harness(hb, ["-seed", str(seed), "-bytes", str(nbytes), "-dsl", str(ndsl), "-repo", c.repo,
+        rc, out = c.run_harness(hb, ["-seed", str(seed), "-bytes", str(nbytes), "-dsl", str(ndsl), "-struct", str(nstruct), "-repo", c.repo,
                                      "-tmp", os.path.join(c.work, "tmp%d" % state["round"])], timeout=2400)
         cases = []
         for line in out.splitlines():
@@ -69,14 +75,15 @@ def run(c):
 
     def model_verdicts(cases, tag):
         """validate each dsl rule in Coq; returns {id: bool}"""
-        dsl = [x for x in cases if x["stream"] == "dsl" and x.get("rule")]
+        dsl = [x for x in cases if x["stream"] == "dsl" and x.get("rule") and x["obs"]["kind"] in ("ok", "error")]
         if not gen_ok or not dsl:
             return {}
         pre = ["From Coq Require Import List String Ascii Bool ZArith NArith.",
                "From RG.Load Require Import Place Validate.",
                "From RGW Require Import Gen_Place Gen_Valid.",
                "Import ListNotations. Local Open Scope string_scope.",
-               "Definition V := validate gen_num_buckets gen_place_cases gen_kind_names gen_object_names gen_tag_names."]
+               "Definition V := validate gen_num_buckets gen_place_cases gen_kind_names gen_object_names gen_tag_names gen_swap_guard."]
+        opnd = {"lit": "OLit", "line": "OLine", "size": "OSize", "valueint": "OValueInt", "text": "OText"}
 
         def rule_src(r):
             alts = "; ".join("mkAlt %s %d%%N [%s]" % ("true" if a["ok"] else "false", max(a["tag"], 0), "; ".join(coq_str(v) for v in a["vars"]))
@@ -84,8 +91,11 @@ def run(c):
             atoms = []
             for a in r["atoms"]:
                 chk = {"kind": "ChkKind", "object": "ChkObject", "tag": "ChkTag", "version": "ChkVersion"}.get(a.get("chk") or "")
-                atoms.append("mkAtom [%s] %s" % ("; ".join(coq_str(v) for v in (a.get("vars") or [])),
-                                                 "ChkNone" if chk is None else "(%s %s)" % (chk, coq_str(a.get("arg") or ""))))
+                if a.get("chk") == "binary":
+                    c_ = "(ChkBinary %s %s %s)" % ("true" if a.get("eq") else "false", opnd[a["l"]], opnd[a["r"]])
+                else:
+                    c_ = "ChkNone" if chk is None else "(%s %s)" % (chk, coq_str(a.get("arg") or ""))
+                atoms.append("mkAtom [%s] %s" % ("; ".join(coq_str(v) for v in (a.get("vars") or [])), c_))
             at = "(Some %s)" % coq_str(r["at"]) if r["at"] else "None"
             tmpls = [coq_str(r["report"])] + ([coq_str(r["suggest"])] if r["suggest"] else [])
             return "(mkVRule %s [%s] [%s] %s [%s])" % ("true" if r["comment"] else "false", alts, "; ".join(atoms), at, "; ".join(tmpls))
@@ -117,6 +127,9 @@ def run(c):
             inp = {"stream": x["stream"], "id": x["id"], "rules.go": x.get("src")}
             if o["kind"] == "panic":
                 c.fail("oracle", "Load panics", input=inp, observed=o.get("err"), expected="nil or a located error")
+            elif o["kind"] == "crash":
+                c.fail("oracle", "Load kills the process (fatal runtime error that recover() cannot catch; stack capped at 96 MB)", input=inp,
+                       observed=o.get("err"), expected="nil or a located error")
             elif o["kind"] == "timeout":
                 c.fail("oracle", "Load does not return within 5 s", input=inp, observed="timeout", expected="nil or a located error")
             elif o["kind"] == "error" and not o["located"]:
@@ -124,7 +137,7 @@ def run(c):
                        expected="an error mentioning rules.go:<line>")
             if x.get("nil_reports"):
                 c.fail("oracle", "an accepted rule produces a report with a nil node", input=inp, observed=x["nil_reports"], expected=0)
-            if x["stream"] == "dsl":
+            if x["stream"] == "dsl" and x.get("rule"):
                 r = x["rule"]
                 if len(r["alts"]) > 1 or r["atoms"] or r["at"] or "$" in r["report"] + r["suggest"]:
                     c.nontriv(x.get("src") or json.dumps(r, sort_keys=True))
@@ -142,19 +155,23 @@ def run(c):
             else:
                 c.nontriv((x["stream"], o["kind"], (o.get("err") or "")[:40]))
         c.coverage["model_vs_impl_cases"] = c.coverage.get("model_vs_impl_cases", 0) + len(verdict)
-        for s in ("bytes", "notdsl", "dsl"):
+        c.coverage["binary_comparison_atoms"] = c.coverage.get("binary_comparison_atoms", 0) + sum(
+            1 for x in cases if x["stream"] == "dsl" and x.get("rule") for a in x["rule"]["atoms"] if a.get("chk") == "binary")
+        c.coverage["constant_vs_constant_comparisons"] = c.coverage.get("constant_vs_constant_comparisons", 0) + sum(
+            1 for x in cases if x["stream"] == "dsl" and x.get("rule") for a in x["rule"]["atoms"] if a.get("chk") == "binary" and a["l"] == "lit" and a["r"] == "lit")
+        for s in ("bytes", "notdsl", "dsl", "struct"):
             c.coverage["cases_" + s] = c.coverage.get("cases_" + s, 0) + sum(1 for x in cases if x["stream"] == s)
             c.coverage["accepted_" + s] = c.coverage.get("accepted_" + s, 0) + sum(1 for x in cases if x["stream"] == s and x["obs"]["kind"] == "ok")
 
     if thorough:
         for k in range(4):
-            judge(observe(c.seed * 31 + k, 4000, 3000), "t%d" % k)
+            judge(observe(c.seed * 31 + k, 4000, 3000, 2500), "t%d" % k)
     else:
-        judge(observe(c.seed, 500, 900), "main")
+        judge(observe(c.seed, 400, 800, 300), "main")
 
     def search():
         for k in range(1, 4):
-            judge(observe(c.seed * 1009 + k, 2500, 1500), "s%d" % k, with_model=gen_ok)
+            judge(observe(c.seed * 1009 + k, 1500, 1500, 1500), "s%d" % k, with_model=gen_ok)
             if any(f["kind"] == "oracle" and not f.get("finding") for f in c.failures):
                 break
 
